@@ -72,7 +72,16 @@ class HedgeLoss(Module, ABC):
             torch.Tensor
         """
         pl = input - target
-        return bisect(self, self(pl), pl.min(), pl.max())
+        loss = self(pl)
+
+        def fn(cash: Tensor) -> Tensor:
+            # Loss of a sample that is ``cash`` for sure, evaluated for each
+            # trailing element of ``pl`` separately
+            return self(cash.unsqueeze(0))
+
+        lower = torch.zeros_like(loss) + pl.min()
+        upper = torch.zeros_like(loss) + pl.max()
+        return bisect(fn, loss, lower, upper)
 
 
 class EntropicRiskMeasure(HedgeLoss):
